@@ -116,6 +116,9 @@ def _(value: Enum):
 @customize_repr
 def _(value: Flag):
     name = type(value).__qualname__
+    if not value:
+        # no flag is set
+        return f"{name}(0)"
     return " | ".join(f"{name}.{flag.name}" for flag in type(value) if flag in value)
 
 
